@@ -70,6 +70,18 @@ def get_filesystem(path: str) -> 'FileSystem[Any]':
     raise ValueError(f'Unrecognised filesystem for "{path}"')
 
 
+def _folder_prefix(folder: str) -> str:
+    """Convert a (case-folded, forward-slash) folder name to the prefix shared by the files inside it.
+
+    The root folder is the empty prefix, anything else ends with exactly one slash so that
+    ``mat`` does not match ``materials/`` or ``mat.txt``.
+    """
+    folder = folder.rstrip('/')
+    if folder in ('', '.'):
+        return ''
+    return folder + '/'
+
+
 class RootEscapeError(ValueError):
     """Raised when a path tries to refer to a file outside the root of a filesystem."""
     root: str
@@ -380,12 +392,15 @@ class FileSystemChain(FileSystem[File[FileSystem[Any]]]):
         """
         for sys, prefix in self.systems:
             full_folder = os.path.join(prefix, folder).replace('\\', '/')
+            # Lookups are case-insensitive, so the stored name may spell the subfolder differently.
+            fold_prefix = _folder_prefix(prefix.replace('\\', '/').casefold())
             for file in sys.walk_folder(full_folder):
-                yield File(
-                    self,
-                    os.path.relpath(file.path, prefix).replace('\\', '/'),
-                    file,
-                )
+                rel_path = file.path.replace('\\', '/')
+                if fold_prefix and rel_path[:len(fold_prefix)].casefold() == fold_prefix:
+                    rel_path = rel_path[len(fold_prefix):]
+                else:
+                    rel_path = os.path.relpath(file.path, prefix).replace('\\', '/')
+                yield File(self, rel_path, file)
 
     def _get_cache_key(self, file: File[Self]) -> int:
         """Return the last modified time of this file.
@@ -473,10 +488,10 @@ class VirtualFileSystem(FileSystem[str]):
 
     def walk_folder(self, folder: str = '') -> Iterator[File[Self]]:
         """Return all files that are 'subfolders' of the provided folder."""
-        folder = self._clean_path(folder)
+        folder = _folder_prefix(self._clean_path(folder))
 
-        for filename, data in self._mapping.values():
-            if filename.startswith(folder):
+        for key, (filename, data) in self._mapping.items():
+            if key.startswith(folder):
                 yield File(self, filename, filename)
 
     def _file_exists(self, name: str) -> bool:
@@ -589,7 +604,7 @@ class ZipFileSystem(FileSystem[ZipInfo]):
     def walk_folder(self, folder: str = '') -> Iterator[File[Self]]:
         """Yield files in a folder."""
         # \\ is not allowed in zips.
-        folder = folder.replace('\\', '/').casefold()
+        folder = _folder_prefix(folder.replace('\\', '/').casefold())
         for filename, fileinfo in self._name_to_info.items():
             if filename.startswith(folder):
                 yield File(self, fileinfo.filename, fileinfo)
@@ -669,9 +684,9 @@ class VPKFileSystem(FileSystem[VPKFile]):
     def walk_folder(self, folder: str = '') -> Iterator[File[Self]]:
         """Yield files in a folder."""
         # All VPK files use forward slashes.
-        folder = folder.replace('\\', '/')
-        for file in self._name_to_file.values():
-            if file.dir.startswith(folder):
+        folder = _folder_prefix(folder.replace('\\', '/').casefold())
+        for key, file in self._name_to_file.items():
+            if key.startswith(folder):
                 yield File(self, file.filename, file)
 
     def open_bin(self, name: Union[str, File[Self]]) -> BinaryIO:
